@@ -634,13 +634,18 @@ def _(p, A):
     rg = _oned(A, n, lo=0.0 if _v(p, 2) else 0.2)
     v = _v(p, 6)
     C = A.arr("center", [0.1, -0.2, 0.3]) if v % 2 else None
+    # half of the descriptors request degrees/sizes that are not shipped and must be rounded up by the library
+    # (the caller's sequence has to stay as it was given)
+    up = bool((int(p["seed"]) >> 3) & 1)
+    degs = [2, 4, 6, 10] if up else [3, 5, 7, 9]
+    szs = [5, 17, 25, 37] if up else [6, 18, 26, 38]
     if v < 2:
-        D = A.lst("degrees", [3, 5, 7, 9][:n])
+        D = A.lst("degrees", degs[:n])
         return lambda: AtomGrid(rg, degrees=D, center=C, rotate=int(p["seed"]) % 3)
     if v < 4:
-        D = A.arr("degrees", [3, 5, 7, 9][:n], dtype=int)
+        D = A.arr("degrees", degs[:n], dtype=int)
         return lambda: AtomGrid(rg, degrees=D, center=C, method="spherical")
-    S = A.lst("sizes", [6, 18, 26, 38][:n]) if v == 4 else A.arr("sizes", [6, 18, 26, 38][:n], dtype=int)
+    S = A.lst("sizes", szs[:n]) if v == 4 else A.arr("sizes", szs[:n], dtype=int)
     D = A.same("degrees", S)  # degrees are documented to be ignored when sizes are given
     return lambda: AtomGrid(rg, degrees=D, sizes=S, center=C)
 
